@@ -20,6 +20,7 @@ from __future__ import annotations
 import ast
 from typing import Any, Dict, List, Optional, Set, Tuple
 
+from engine.srcmatch import U
 from engine.cfg import build_cfg
 from engine.fold import Folder
 from engine.model import AnalysisError, Program, dotted, walk_no_nested
@@ -33,14 +34,14 @@ def views_of(bsp: Any) -> Dict[str, List[str]]:
         val = getattr(st, 'value', None)
         if isinstance(st, (ast.AnnAssign, ast.Assign)) and isinstance(val, ast.Call) and dotted(val.func) == 'ParsedLump':
             name = st.target.id if isinstance(st, ast.AnnAssign) else st.targets[0].id
-            views[name] = [ast.unparse(a) for a in val.args]
+            views[name] = [U(a) for a in val.args]
     return views
 
 
 def lump_store_target(n: ast.AST) -> Optional[str]:
     """'BSP_LUMPS.X' if n is an assignment target `self.lumps[BSP_LUMPS.X].data`"""
     if isinstance(n, ast.Attribute) and n.attr == 'data' and isinstance(n.value, ast.Subscript) and dotted(n.value.value) in ('self.lumps', 'self.game_lumps'):
-        return ast.unparse(n.value.slice)
+        return U(n.value.slice)
     return None
 
 
@@ -66,7 +67,7 @@ def run(ctx: Any, prog: Program) -> None:
     order_node = bsp.global_assign('LUMP_REBUILD_ORDER')
     if not isinstance(order_node, ast.List):
         raise AnalysisError('LUMP_REBUILD_ORDER is not a list literal')
-    order = [ast.unparse(e) for e in order_node.elts]
+    order = [U(e) for e in order_node.elts]
     pos = {k: i for i, k in enumerate(order)}
     main_of = {v: args[0] for v, args in views.items()}
 
@@ -84,8 +85,8 @@ def run(ctx: Any, prog: Program) -> None:
     lumps_enum = fold.enum_table('BSP_LUMPS')
     all_lumps = {m.name for m in lumps_enum}
     # LUMP_WRITE_ORDER = list(BSP_LUMPS); remove(PAKFILE); append(PAKFILE)
-    wo_stmts = [st for st in bsp.tree.body if 'LUMP_WRITE_ORDER' in ast.unparse(st)[:40]]
-    src = [ast.unparse(s) for s in wo_stmts]
+    wo_stmts = [st for st in bsp.tree.body if 'LUMP_WRITE_ORDER' in U(st)[:40]]
+    src = [U(s) for s in wo_stmts]
     ok = src[:3] == ['LUMP_WRITE_ORDER = list(BSP_LUMPS)', 'LUMP_WRITE_ORDER.remove(BSP_LUMPS.PAKFILE)', 'LUMP_WRITE_ORDER.append(BSP_LUMPS.PAKFILE)'] and len(src) == 3
     if not ok:
         # generic: must start from list(BSP_LUMPS) and only remove/append the same members
@@ -128,10 +129,10 @@ def run(ctx: Any, prog: Program) -> None:
         for st in rdr.body:
             if isinstance(st, ast.If) and st.body and isinstance(st.body[-1], ast.Return) and st.body[-1].value is None \
                     and not any(isinstance(x, (ast.Yield, ast.YieldFrom)) for s2 in st.body for x in ast.walk(s2)):
-                skip_guards.add(ast.unparse(st.test))
+                skip_guards.add(U(st.test))
         for extra in args[1:]:
             g = build_cfg(wr, lambda s: False)
-            skip_edges = {(t.id, m, lab) for t in g.nodes if t.kind == 'test' and ast.unparse(t.stmt) in skip_guards for m, lab in g.succ[t.id] if lab == 'true'}
+            skip_edges = {(t.id, m, lab) for t in g.nodes if t.kind == 'test' and U(t.stmt) in skip_guards for m, lab in g.succ[t.id] if lab == 'true'}
             assign_nodes = set()
             for nd in g.nodes:
                 if nd.kind == 'stmt' and isinstance(nd.stmt, ast.Assign) and any(lump_store_target(t) == extra for t in nd.stmt.targets):
@@ -177,7 +178,7 @@ def run(ctx: Any, prog: Program) -> None:
         raise AnalysisError('BSP.save: the rebuild loop calling self._save_funcs[...] was not found')
     lp = loops[0]
     ok_iter = dotted(lp.iter) == 'LUMP_REBUILD_ORDER'
-    ctx.check('C10.B7', ok_iter, bsp, lp, f'the rebuild loop iterates `{ast.unparse(lp.iter)[:60]}` instead of LUMP_REBUILD_ORDER itself: a list of parsed views computed before the loop misses the views '
+    ctx.check('C10.B7', ok_iter, bsp, lp, f'the rebuild loop iterates `{U(lp.iter)[:60]}` instead of LUMP_REBUILD_ORDER itself: a list of parsed views computed before the loop misses the views '
               'that the writers parse (and thereby blank) while saving', func='BSP.save', text='rebuild loop iterates LUMP_REBUILD_ORDER')
     var = lp.target.id if isinstance(lp.target, ast.Name) else None
     live = any(isinstance(c, ast.Call) and dotted(c.func) == 'self._parsed_lumps.pop' and c.args and dotted(c.args[0]) == var for c in ast.walk(lp)) or \
@@ -202,7 +203,7 @@ def run(ctx: Any, prog: Program) -> None:
                             bad = (n, f'self.{el.attr}')
                         if isinstance(el, ast.Attribute) and el.attr in ('version', 'flags', 'is_compressed', 'id') and isinstance(el.value, ast.Subscript) \
                                 and dotted(el.value.value) in ('self.lumps', 'self.game_lumps'):
-                            bad = (n, ast.unparse(el))
+                            bad = (n, U(el))
             ctx.check('C10.B8', bad is None, bsp, bad[0] if bad else fn, (f'{fname} assigns {bad[1]}: rebuilding a view that was merely looked at changes the saved header' if bad else 'no header state written'),
                       func=f'BSP.{fname}', text=f'{fname} leaves header state alone' if bad is None else f'{fname} writes {bad[1]}')
     # ---- B9 --------------------------------------------------------------------------------------------
@@ -220,7 +221,7 @@ def run(ctx: Any, prog: Program) -> None:
             p_ = bsp.parents.get(p_)
         names |= {x.id for x in ast.walk(n.value) if isinstance(x, ast.Name)} - {'self'}
         names &= local_vars
-        ctx.check('C10.B9', bool(names), bsp, n, f'`{ast.unparse(n)}` fixes the output separator without looking at the lump (it depends only on {sorted({ast.unparse(x) for x in ast.walk(n.value) if isinstance(x, ast.Attribute)}) or "constants"}): '
+        ctx.check('C10.B9', bool(names), bsp, n, f'`{U(n)}` fixes the output separator without looking at the lump (it depends only on {sorted({U(x) for x in ast.walk(n.value) if isinstance(x, ast.Attribute)}) or "constants"}): '
                   'a map whose version suggests one separator but whose outputs use the other is rewritten with the wrong one, and outputs containing commas stop parsing', func='BSP._lmp_read_ents', text='separator observed from data')
     ok = any(isinstance(c, ast.Call) and dotted(c.func) == 'self.write_ent_data' and len(c.args) >= 2 and dotted(c.args[1]) == 'self.out_comma_sep' for c in ast.walk(ms['_lmp_write_ents']))
     ctx.shape('C10.B9', ok, bsp, ms['_lmp_write_ents'], 'the writer passes the recorded separator on', func='BSP._lmp_write_ents', text='separator passed to writer')
@@ -229,7 +230,7 @@ def run(ctx: Any, prog: Program) -> None:
     sv = ms['save']
 
     def role(e: ast.AST) -> str:
-        s = ast.unparse(e)
+        s = U(e)
         if 'tell()' in s or s in ('lump_start', 'offset', 'file_off'):
             return 'offset'
         if s.startswith('len(') or s in ('length',):
@@ -248,9 +249,9 @@ def run(ctx: Any, prog: Program) -> None:
         if isinstance(n, ast.Assign) and isinstance(n.targets[0], ast.Tuple) and isinstance(n.value, ast.Call) and dotted(n.value.func) == 'struct_read' \
                 and dotted(n.value.args[0]) == 'HEADER_LUMP':
             hdr_unpack = [role(t) for t in n.targets[0].elts]
-        if isinstance(n, ast.Assign) and isinstance(n.targets[0], ast.Tuple) and isinstance(n.value, ast.Tuple) and {ast.unparse(x) for x in n.targets[0].elts} == {'version', 'offset', 'length'}:
+        if isinstance(n, ast.Assign) and isinstance(n.targets[0], ast.Tuple) and isinstance(n.value, ast.Tuple) and {U(x) for x in n.targets[0].elts} == {'version', 'offset', 'length'}:
             p = bsp.parents.get(n)
-            if isinstance(p, ast.If) and 'L4D2' in ast.unparse(p.test):
+            if isinstance(p, ast.If) and 'L4D2' in U(p.test):
                 swap = (n.targets[0], n.value)
     if hdr_unpack is None or swap is None:
         raise AnalysisError('BSP.read: header-lump unpack or L4D2 field swap not found')
@@ -258,7 +259,7 @@ def run(ctx: Any, prog: Program) -> None:
     slot_names = ['offset', 'length', 'version', 'uncomp_size']
     l4d2_roles = list(hdr_unpack)
     for tgt, val in zip(swap[0].elts, swap[1].elts):
-        src_name = ast.unparse(val)       # variable holding the slot value
+        src_name = U(val)       # variable holding the slot value
         if src_name in slot_names:
             l4d2_roles[slot_names.index(src_name)] = role(tgt)
     # save side
@@ -272,7 +273,7 @@ def run(ctx: Any, prog: Program) -> None:
             cur = n
             is_l4d2 = None
             while p is not None and p is not sv:
-                if isinstance(p, ast.If) and 'L4D2' in ast.unparse(p.test):
+                if isinstance(p, ast.If) and 'L4D2' in U(p.test):
                     is_l4d2 = cur in p.body or any(cur is x for s in p.body for x in ast.walk(s))
                     break
                 cur = p
@@ -282,7 +283,7 @@ def run(ctx: Any, prog: Program) -> None:
             want = l4d2_roles if is_l4d2 else hdr_unpack
             norm = [('fourcc' if r == 'zero' and w == 'fourcc' else ('version' if r == 'zero' and w == 'version' else r)) for r, w in zip(roles, want)]
             ctx.check('C10.B4', norm == want, bsp, n, f'save() writes the {"L4D2" if is_l4d2 else "normal"} lump header as {roles} but read() interprets the four fields as {want}',
-                      func='BSP.save', text=f'header order {"L4D2" if is_l4d2 else "normal"}: {ast.unparse(n)[:50]}')
+                      func='BSP.save', text=f'header order {"L4D2" if is_l4d2 else "normal"}: {U(n)[:50]}')
     # HEADER_LUMP has four integer slots
     ctx.check('C10.B4', isinstance(hdr_fmt, str) and hdr_fmt.replace('<', '') == '4i', bsp, bsp.global_assign('HEADER_LUMP'), 'HEADER_LUMP must be four int32 (offset, length, version, fourCC)',
               func='<module>', text='HEADER_LUMP format')
@@ -310,13 +311,13 @@ def run(ctx: Any, prog: Program) -> None:
     joined = ''.join(p.replace('<', '').replace(' ', '') for p in pieces)
     ctx.check('C10.B4', joined == st_fmt.fmt.replace('<', '').replace(' ', ''), bsp, sv, f'game-lump directory entry: save() writes {pieces} but read() unpacks GameLump.ST = {st_fmt.fmt!r}',
               func='BSP.save', text='game lump directory record')
-    id_rev_w = any('game_lump.id[::-1]' in ast.unparse(n) for n in walk_no_nested(sv) if isinstance(n, ast.Call))
-    id_rev_r = any(ast.unparse(n).replace(' ', '') == 'game_lump_id=game_lump_id[::-1]' for n in walk_no_nested(rd) if isinstance(n, ast.Assign))
+    id_rev_w = any('game_lump.id[::-1]' in U(n) for n in walk_no_nested(sv) if isinstance(n, ast.Call))
+    id_rev_r = any(U(n).replace(' ', '') == 'game_lump_id=game_lump_id[::-1]' for n in walk_no_nested(rd) if isinstance(n, ast.Assign))
     ctx.shape('C10.B4', id_rev_w and id_rev_r, bsp, sv, 'game lump ids are stored reversed: both save() and read() must reverse them', func='BSP.save', text='game lump id reversal')
     h1w = any(isinstance(n, ast.Call) and dotted(n.func) == 'struct.pack' and n.args and dotted(n.args[0]) == 'HEADER_1' and len(n.args) == 3 for n in walk_no_nested(sv))
     h1r = any(isinstance(n, ast.Call) and dotted(n.func) == 'struct_read' and dotted(n.args[0]) == 'HEADER_1' for n in walk_no_nested(rd))
-    h2w = any(isinstance(n, ast.Call) and dotted(n.func) == 'struct.pack' and n.args and dotted(n.args[0]) == 'HEADER_2' and ast.unparse(n.args[1]) == 'self.map_revision' for n in walk_no_nested(sv))
-    h2r = any(isinstance(n, ast.Assign) and isinstance(n.value, ast.Call) and dotted(n.value.func) == 'struct_read' and dotted(n.value.args[0]) == 'HEADER_2' and 'self.map_revision' in ast.unparse(n.targets[0]) for n in walk_no_nested(rd))
+    h2w = any(isinstance(n, ast.Call) and dotted(n.func) == 'struct.pack' and n.args and dotted(n.args[0]) == 'HEADER_2' and U(n.args[1]) == 'self.map_revision' for n in walk_no_nested(sv))
+    h2r = any(isinstance(n, ast.Assign) and isinstance(n.value, ast.Call) and dotted(n.value.func) == 'struct_read' and dotted(n.value.args[0]) == 'HEADER_2' and 'self.map_revision' in U(n.targets[0]) for n in walk_no_nested(rd))
     ctx.shape('C10.B4', h1w and h1r and h2w and h2r, bsp, sv, 'magic/version (HEADER_1) and map revision (HEADER_2) must be written and read with the same formats', func='BSP.save', text='HEADER_1/HEADER_2')
     # ---- B5 --------------------------------------------------------------------------------------------
     comp_calls = [n for n in walk_no_nested(sv) if isinstance(n, ast.Call) and dotted(n.func) == 'compress_lzma']
@@ -328,16 +329,16 @@ def run(ctx: Any, prog: Program) -> None:
         guard = None
         child: ast.AST = c
         while p is not None and p is not sv:
-            if isinstance(p, ast.If) and 'is_compressed' in ast.unparse(p.test) and any(child is x or any(child is y for y in ast.walk(x)) for x in p.body):
+            if isinstance(p, ast.If) and 'is_compressed' in U(p.test) and any(child is x or any(child is y for y in ast.walk(x)) for x in p.body):
                 guard = p
                 break
             child = p
             p = bsp.parents.get(p)
-        obj = ast.unparse(c.args[0]).split('.')[0]
-        ok = guard is not None and f'{obj}.is_compressed' in ast.unparse(guard.test)
-        ctx.check('C10.B5', ok, bsp, c, f'compress_lzma({ast.unparse(c.args[0])}) must be applied exactly when {obj}.is_compressed is set', func='BSP.save', text=f'compress {obj} iff flagged')
+        obj = U(c.args[0]).split('.')[0]
+        ok = guard is not None and f'{obj}.is_compressed' in U(guard.test)
+        ctx.check('C10.B5', ok, bsp, c, f'compress_lzma({U(c.args[0])}) must be applied exactly when {obj}.is_compressed is set', func='BSP.save', text=f'compress {obj} iff flagged')
         if obj == 'lump' and guard is not None:
-            tsrc = ast.unparse(guard.test)
+            tsrc = U(guard.test)
             if 'PAKFILE' in tsrc:
                 ctx.check('C10.B5', True, bsp, guard, 'the pakfile lump must never be LZMA-compressed', func='BSP.save', text='PAKFILE never compressed')
             elif isinstance(guard.test, ast.Attribute) or (isinstance(guard.test, ast.BoolOp) and all(isinstance(v, ast.Attribute) for v in guard.test.values)):
@@ -345,28 +346,28 @@ def run(ctx: Any, prog: Program) -> None:
                           func='BSP.save', text='PAKFILE never compressed')
             else:
                 ctx.shape('C10.B5', False, bsp, guard, 'exclusion of the pakfile lump not recognised', func='BSP.save', text='PAKFILE never compressed')
-            fcc = [n for n in guard.body if isinstance(n, ast.Assign) and 'fourcc' in ast.unparse(n.targets[0])]
-            fz = [n for n in guard.orelse if isinstance(n, ast.Assign) and 'fourcc' in ast.unparse(n.targets[0])]
+            fcc = [n for n in guard.body if isinstance(n, ast.Assign) and 'fourcc' in U(n.targets[0])]
+            fz = [n for n in guard.orelse if isinstance(n, ast.Assign) and 'fourcc' in U(n.targets[0])]
             if len(fcc) != 1 or len(fz) != 1:
                 ctx.shape('C10.B5', False, bsp, guard, 'fourCC assignments not found in both branches', func='BSP.save', text='fourCC = uncompressed length / 0')
             elif isinstance(fcc[0].value, ast.Constant) or not (isinstance(fz[0].value, ast.Constant) and fz[0].value.value == 0):
-                ctx.check('C10.B5', False, bsp, fcc[0], f'the fourCC slot is set to `{ast.unparse(fcc[0].value)}` for compressed lumps and `{ast.unparse(fz[0].value)}` otherwise: it must hold the uncompressed length / 0 '
+                ctx.check('C10.B5', False, bsp, fcc[0], f'the fourCC slot is set to `{U(fcc[0].value)}` for compressed lumps and `{U(fz[0].value)}` otherwise: it must hold the uncompressed length / 0 '
                           '(read() takes `> 0` as the compressed flag and the engine uses the value as the size)', func='BSP.save', text='fourCC = uncompressed length / 0')
             else:
-                ctx.shape('C10.B5', ast.unparse(fcc[0].value) == 'len(lump.data)', bsp, fcc[0], 'uncompressed length expression', func='BSP.save', text='fourCC = uncompressed length / 0')
-    rflag = [n for n in walk_no_nested(rd) if isinstance(n, ast.If) and ast.unparse(n.test) == 'uncomp_size > 0']
-    ok = len(rflag) == 1 and 'lump.is_compressed = True' in ast.unparse(rflag[0].body[0]) and 'decompress_lzma' in ast.unparse(rflag[0]) \
-        and 'lump.is_compressed = False' in ast.unparse(rflag[0].orelse[0])
+                ctx.shape('C10.B5', U(fcc[0].value) == 'len(lump.data)', bsp, fcc[0], 'uncompressed length expression', func='BSP.save', text='fourCC = uncompressed length / 0')
+    rflag = [n for n in walk_no_nested(rd) if isinstance(n, ast.If) and U(n.test) == 'uncomp_size > 0']
+    ok = len(rflag) == 1 and 'lump.is_compressed = True' in U(rflag[0].body[0]) and 'decompress_lzma' in U(rflag[0]) \
+        and 'lump.is_compressed = False' in U(rflag[0].orelse[0])
     ctx.shape('C10.B5', ok, bsp, rflag[0] if rflag else rd, 'read() must set is_compressed and decompress exactly when the fourCC slot is positive', func='BSP.read', text='read flag/decompress')
-    gl = [n for n in walk_no_nested(rd) if isinstance(n, ast.If) and ast.unparse(n.test) == 'gm_lump.is_compressed']
-    ok = len(gl) == 1 and 'decompress_lzma' in ast.unparse(gl[0].body) if gl else False
-    ok = bool(gl) and any('decompress_lzma' in ast.unparse(s) for s in gl[0].body) and not any('decompress_lzma' in ast.unparse(s) for s in gl[0].orelse)
+    gl = [n for n in walk_no_nested(rd) if isinstance(n, ast.If) and U(n.test) == 'gm_lump.is_compressed']
+    ok = len(gl) == 1 and 'decompress_lzma' in U(gl[0].body) if gl else False
+    ok = bool(gl) and any('decompress_lzma' in U(s) for s in gl[0].body) and not any('decompress_lzma' in U(s) for s in gl[0].orelse)
     ctx.shape('C10.B5', ok, bsp, gl[0] if gl else rd, 'read() must decompress a game lump exactly when its compressed flag is set', func='BSP.read', text='game lump decompress')
-    dummy = [n for n in walk_no_nested(sv) if isinstance(n, ast.Assign) and ast.unparse(n.targets[0]) == 'dummy_segment']
-    ok = len(dummy) == 1 and 'game_lumps[-1].is_compressed' in ast.unparse(dummy[0].value)
+    dummy = [n for n in walk_no_nested(sv) if isinstance(n, ast.Assign) and U(n.targets[0]) == 'dummy_segment']
+    ok = len(dummy) == 1 and 'game_lumps[-1].is_compressed' in U(dummy[0].value)
     ctx.shape('C10.B5', ok, bsp, dummy[0] if dummy else sv, 'a trailing dummy directory entry is needed when the last game lump is compressed (sizes are derived from the next offset)', func='BSP.save', text='dummy game lump entry')
     glen = [n for n in walk_no_nested(sv) if isinstance(n, ast.Call) and dotted(n.func) == 'defer.set_data' and n.args and dotted(n.args[0]) == 'game_lump.id']
-    ok = len(glen) == 1 and [ast.unparse(a) for a in glen[0].args[1:]] == ['file.tell()', 'len(game_lump.data)']
+    ok = len(glen) == 1 and [U(a) for a in glen[0].args[1:]] == ['file.tell()', 'len(game_lump.data)']
     ctx.shape('C10.B5', ok, bsp, glen[0] if glen else sv, 'the game-lump directory must record (offset, uncompressed length): read() reads `uncomp_size` bytes for uncompressed lumps', func='BSP.save', text='game lump (offset, length)')
     # ---- B10: compress_lzma / decompress_lzma ----------------------------------------------------------------------------------
     bf_ = prog.module('binformat')
@@ -386,21 +387,21 @@ def run(ctx: Any, prog: Program) -> None:
         # dict_size: the header value is the filter's own entry
         ds = hdr.get('dict_size')
         same = ds is not None and isinstance(ds, ast.Subscript) and dotted(ds.value) == filt_name and isinstance(ds.slice, ast.Constant) and ds.slice.value == 'dict_size'
-        ctx.check('C10.B10', same, bf_, ds if ds is not None else packs_[0], f'the header stores `{ast.unparse(ds) if ds is not None else "?"}` as dictionary size, but the stream is encoded with `{filt_name}[\'dict_size\']`: '
+        ctx.check('C10.B10', same, bf_, ds if ds is not None else packs_[0], f'the header stores `{U(ds) if ds is not None else "?"}` as dictionary size, but the stream is encoded with `{filt_name}[\'dict_size\']`: '
                   'decompress_lzma builds its decoder from the header, and a dictionary smaller than the distances used in the stream makes the lump undecodable ("Corrupt input data")', func='compress_lzma', text='header dict_size is the encoder\'s')
         # props: (pb * 5 + lp) * 9 + lc of the same filter
         pr = hdr.get('props')
         pdef = next((a.value for a in ast.walk(cz) if isinstance(a, ast.Assign) and isinstance(pr, ast.Name) and dotted(a.targets[0]) == pr.id), pr)
-        psrc = ast.unparse(pdef).replace(' ', '') if pdef is not None else ''
+        psrc = U(pdef).replace(' ', '') if pdef is not None else ''
         want = f"({filt_name}['pb']*5+{filt_name}['lp'])*9+{filt_name}['lc']"
         ctx.check('C10.B10', psrc == want, bf_, pdef if pdef is not None else packs_[0], f'props byte is `{psrc}`; the decoder splits it as lc = p % 9, lp = (p // 9) % 5, pb = (p // 9) // 5, i.e. it must be `{want}`', func='compress_lzma', text='header props formula')
-        dsrc = ast.unparse(dz).replace(' ', '')
+        dsrc = U(dz).replace(' ', '')
         ctx.shape('C10.B10', ('lc=props%9' in dsrc and 'props//=9' in dsrc and 'pb=props//5' in dsrc and 'lp=props%5' in dsrc) or ('props,lc=divmod(props,9)' in dsrc and 'pb,lp=divmod(props,5)' in dsrc), bf_, dz, 'decompress_lzma splits props as lc = p % 9; p //= 9; pb = p // 5; lp = p % 5', func='decompress_lzma', text='props split')
-        sizes = (ast.unparse(hdr.get('uncomp_size')) if hdr.get('uncomp_size') is not None else '', ast.unparse(hdr.get('comp_size')) if hdr.get('comp_size') is not None else '')
+        sizes = (U(hdr.get('uncomp_size')) if hdr.get('uncomp_size') is not None else '', U(hdr.get('comp_size')) if hdr.get('comp_size') is not None else '')
         ctx.check('C10.B10', sizes[0] == f'len({cz.args.args[0].arg})' and sizes[1].startswith('len('), bf_, packs_[0], f'header sizes are {sizes}: uncompressed length of the input, then length of the encoded stream', func='compress_lzma', text='header sizes')
     # ---- B6 --------------------------------------------------------------------------------------------
     g_ = bsp.func('ParsedLump.__get__')
-    src = ast.unparse(g_)
+    src = U(g_)
     stores = [n for n in ast.walk(g_) if isinstance(n, ast.Assign) and isinstance(n.targets[0], ast.Subscript) and dotted(n.targets[0].value) == 'instance._parsed_lumps']
     blanks = [n for n in ast.walk(g_) if isinstance(n, ast.For) and dotted(n.iter) == 'self.to_clear']
     if not blanks:
@@ -411,7 +412,7 @@ def run(ctx: Any, prog: Program) -> None:
     else:
         ctx.check('C10.B6', min(s_.lineno for s_ in stores) < blanks[0].lineno, bsp, blanks[0], 'ParsedLump.__get__ must cache the parsed value before blanking the raw lumps', text='cache before blank')
     init = bsp.func('ParsedLump.__init__')
-    ok = 'self.to_clear = (lump, *extra)' in ast.unparse(init)
+    ok = 'self.to_clear = (lump, *extra)' in U(init)
     ctx.shape('C10.B6', ok, bsp, init, 'to_clear must be exactly the lumps named in the view declaration (B1 is checked against that list)', text='to_clear = declaration')
 
 
